@@ -94,6 +94,11 @@ var plan = []genFile{
 		{"bgzf", "minFrame", "minFrame"},
 		{"bgzf", "magicBlock", "magicBlock"},
 	}},
+	{module: "Fai", fns: []fnSpec{
+		{"fai", "Record.position", "position"},
+		{"fai", "Record.endOfLineOffset", "endOfLineOffset"},
+		{"fai", "Record.isValid", "isValid"},
+	}},
 	{module: "Sam", consts: []constSpec{
 		{"sam", "consume", "consume"},
 		{"sam", "cigarOps", "cigarOps"},
@@ -463,11 +468,16 @@ func goType(t types.Type) (gty, error) {
 		g := gty{}
 		for i := 0; i < u.NumFields(); i++ {
 			ft, err := goType(u.Field(i).Type())
-			if err != nil {
-				return gty{}, err
+			if err != nil || ft.fields != nil || ft.bytes {
+				// fields that are not plain numbers (strings, nested structs, slices) are left out;
+				// a function that reads one of them cannot be translated (unknown identifier)
+				continue
 			}
 			g.fields = append(g.fields, u.Field(i).Name())
 			g.ftys = append(g.ftys, ft)
+		}
+		if len(g.fields) == 0 {
+			return gty{}, fmt.Errorf("struct without numeric fields")
 		}
 		return g, nil
 	}
@@ -820,6 +830,11 @@ func (t *tr) stmts(list []ast.Stmt, stores []string, d int) (string, error) {
 		}
 		fmt.Fprintf(&b, "%selse\n%s", ind(d), body)
 		return b.String(), nil
+	case *ast.DeclStmt:
+		if gd, ok := s.Decl.(*ast.GenDecl); ok && gd.Tok == token.CONST {
+			return t.stmts(rest, stores, d) // uses are folded as constants by go/types
+		}
+		return "", fmt.Errorf("unsupported declaration")
 	case *ast.BlockStmt:
 		return t.stmts(append(append([]ast.Stmt{}, s.List...), rest...), stores, d)
 	}
@@ -892,8 +907,13 @@ func (t *tr) expr(e ast.Expr) (string, error) {
 		return lid(e.Name), nil
 	case *ast.SelectorExpr:
 		if id, ok := e.X.(*ast.Ident); ok {
-			if _, ok := t.structs[id.Name]; ok {
-				return id.Name + "_" + e.Sel.Name, nil
+			if st, ok := t.structs[id.Name]; ok {
+				for _, fn := range st.fields {
+					if fn == e.Sel.Name {
+						return id.Name + "_" + e.Sel.Name, nil
+					}
+				}
+				return "", fmt.Errorf("field %s is not a plain number", e.Sel.Name)
 			}
 		}
 		return "", fmt.Errorf("unsupported selector %s", e.Sel.Name)
@@ -1103,6 +1123,14 @@ func (t *tr) binary(x, y ast.Expr, op string, resTy gty) (string, error) {
 			return fmt.Sprintf("(BitVec.sdiv %s %s)", xs, ys), nil
 		}
 		return fmt.Sprintf("(%s / %s)", xs, ys), nil
+	case "%":
+		if ot.isInt {
+			return fmt.Sprintf("(Int.tmod %s %s)", xs, ys), nil
+		}
+		if ot.signed {
+			return fmt.Sprintf("(BitVec.srem %s %s)", xs, ys), nil
+		}
+		return fmt.Sprintf("(%s %% %s)", xs, ys), nil
 	case "&":
 		return fmt.Sprintf("(%s &&& %s)", xs, ys), nil
 	case "|":
